@@ -62,13 +62,13 @@ def one(ctx, y, yh, x, family):
         if name in ('r2', 'r2adj'):
             scale = abs(q) + 2
         if not close(fval, q, scale):
-            ctx.fail('correspondence', f'{name}: float value vs exact definition', site, case, dict(impl=fval, model=str(q), model_float=float(q)))
+            ctx.fail('predicate', f'{name}-equals-its-definition(to within rounding)', site, case, dict(impl=fval, model=str(q), model_float=float(q)))
     # rmsle through supplied logs
     ly, lyh = np.log(y + 1), np.log(yh + 1)
     q = F(d.call('metric', ['mse', core.rats(ly), core.rats(lyh)])[0])
     ctx.corr_checked += 1
     if not close(float(M.rmsle(y, yh)) ** 2, q, 1):
-        ctx.fail('correspondence', 'rmsle^2 vs mean squared log difference', 'metrics.rmsle', case, dict(impl=float(M.rmsle(y, yh)) ** 2, model=float(q)))
+        ctx.fail('predicate', 'rmsle-equals-its-definition(to within rounding)', 'metrics.rmsle', case, dict(impl=float(M.rmsle(y, yh)) ** 2, model=float(q)))
     # ---- bit-wise predicates on the real code
     for nm, f in (('rmse', M.rmse), ('smape', M.smape), ('residuals', M.residuals)):
         a, b = float(f(y, yh)), float(f(yh, y))
@@ -90,7 +90,7 @@ def one(ctx, y, yh, x, family):
         qb, qm = [F(t) for t in d.call('metric', ['fit', core.rats(x), ys])]
         ctx.corr_checked += 1
         if not (close(b, qb, abs(qb) + abs(qm) * abs(F(float(x[0]))) + 1) and close(m, qm, 1)):
-            ctx.fail('correspondence', 'endpoint fit (b, m)', 'linear_fit.linear_fit', case, dict(impl=[float(b), float(m)], model=[float(qb), float(qm)]))
+            ctx.fail('predicate', 'endpoint-fit-equals-its-definition', 'linear_fit.linear_fit', case, dict(impl=[float(b), float(m)], model=[float(qb), float(qm)]))
         coef = (b, m)
         yl = lf.linear_transform(x, coef)
         tol = 1e-9 * (abs(float(y[0])) + abs(float(y[-1])) + abs(m * x[0]) + abs(m * x[-1]) + 1e-300)
@@ -113,11 +113,11 @@ def one(ctx, y, yh, x, family):
             ctx.corr_checked += 1
             v = float(lf.r2(x, y))
             if not close(v, q, 1):
-                ctx.fail('correspondence', 'best-fit R2 vs squared Pearson correlation', 'linear_fit.r2', case, dict(impl=v, model=float(q)))
+                ctx.fail('predicate', 'best-fit-R2-equals-squared-Pearson-correlation', 'linear_fit.r2', case, dict(impl=v, model=float(q)))
             qa = F(d.call('metric', ['corrSqAdj', core.rats(x), ys])[0])
             va = float(lf.r2(x, y, M.R2.adjusted))
             if not close(va, qa, abs(qa) + 2):
-                ctx.fail('correspondence', 'adjusted best-fit R2', 'linear_fit.r2[adjusted]', case, dict(impl=va, model=float(qa)))
+                ctx.fail('predicate', 'adjusted-best-fit-R2-applies-the-(n-1)/(n-2)-correction', 'linear_fit.r2[adjusted]', case, dict(impl=va, model=float(qa)))
     nontriv = (y.tobytes(), yh.tobytes()) if n >= 2 and not np.array_equal(y, yh) else None
     ctx.count(family, n=n, nontrivial_key=nontriv, sample=dict(y=y.tolist()[:8], y_hat=yh.tolist()[:8], smape=float(M.smape(y, yh))))
 
